@@ -107,22 +107,13 @@ pub fn verif_rc_never<T>() -> (r: T)
     requires false
 { unimplemented!() }
 
-// ---- the symbol lookup of utils/symbol_utils.rs (contract of `find_symbol`, @nobody in these units) ----------------------
-
-/// the tid recorded IN the first extern symbol (in key order) whose name is `name`; None iff no extern symbol has that name
-pub uninterp spec fn rc_find_symbol(m: Map<Tid, ExternSymbol>, name: Seq<char>) -> Option<Tid>;
+// ---- "`name` is imported" (vocabulary shared by both checks; a definition, nothing trusted) ------------------------------------
+// (The contract of utils/symbol_utils.rs::find_symbol is no longer stated here: unit reachcheck_243 extracts the real
+//  function and PROVES it, see spec/reachcheck_findsym.rs / lemmas/reachcheck_findsym.rs.  cwe_367 does not call find_symbol.)
 
 /// some extern symbol is called `name` ("`name` is imported")
 pub open spec fn rc_imported(m: Map<Tid, ExternSymbol>, name: Seq<char>) -> bool {
     exists |k: Tid| m.contains_key(k) && (#[trigger] m[k]).name@ == name
-}
-
-/// what is assumed of `rc_find_symbol` (the rest -- WHICH of several symbols of that name -- stays uninterpreted)
-pub open spec fn rc_find_symbol_post<'a>(m: Map<Tid, ExternSymbol>, name: Seq<char>, r: Option<(&'a Tid, &'a str)>) -> bool {
-    &&& r is None <==> !rc_imported(m, name)
-    &&& r is None <==> rc_find_symbol(m, name) is None
-    &&& r is Some ==> rc_find_symbol(m, name) == Some(*r->Some_0.0)
-            && exists |k: Tid| m.contains_key(k) && (#[trigger] m[k]).name@ == name && m[k].tid == *r->Some_0.0
 }
 
 // ---- the name -> tid map of cwe_367::check_cwe -----------------------------------------------------------------------------
